@@ -91,14 +91,23 @@ def shard(args):
                             F.check("C19", f"string-index/{sname}/{tag}", type(col) is np.ndarray and np.array_equal(col, exp) and np.shares_memory(col, arr), type(col).__name__)
                         except Exception as e:
                             F.check("C19", f"string-index/{sname}/{tag}", False, f"{type(e).__name__}: {str(e)[:150]}")
-                # ---- pickle / copy round trips
-                for nm, f in (("pickle", lambda a: pickle.loads(pickle.dumps(a))), ("copy.copy", copy.copy), ("copy.deepcopy", copy.deepcopy)):
-                    try:
-                        b = f(arr)
-                        ok = type(b) is type(arr) and b.dtype == arr.dtype and b.shape == arr.shape and b.tobytes() == arr.tobytes() and AR.sysof(b) == tuple(system)
-                        F.check("C19", f"{nm}-roundtrip/{tag}", ok, dict(type=type(b).__name__, dtype=str(b.dtype)))
-                    except Exception as e:
-                        F.check("C19", f"{nm}-roundtrip/{tag}", False, f"{type(e).__name__}: {str(e)[:150]}")
+                # ---- pickle (every protocol) / copy round trips, for C-ordered, transposed, Fortran-ordered and strided memory layouts
+                memory = [("C", arr)]
+                if len(shape) > 1:
+                    memory += [("transposed", arr.T), ("F-copy", arr.copy(order="F")), ("strided", arr[..., ::2])]
+                else:
+                    memory += [("strided", arr[::2])]
+                rts = [(f"pickle-protocol-{pr}", (lambda a, pr=pr: pickle.loads(pickle.dumps(a, protocol=pr)))) for pr in range(pickle.HIGHEST_PROTOCOL + 1)]
+                rts += [("pickle", lambda a: pickle.loads(pickle.dumps(a))), ("copy.copy", copy.copy), ("copy.deepcopy", copy.deepcopy)]
+                for mname, a0 in memory:
+                    for nm, f in rts:
+                        try:
+                            b = f(a0)
+                            ok = type(b) is type(a0) and b.dtype == a0.dtype and b.shape == a0.shape and AR.sysof(b) == tuple(system) and \
+                                np.asarray(b).tolist() == np.asarray(a0).tolist()
+                            F.check("C19", f"{nm}-roundtrip/{mname}/{tag}", ok, dict(type=type(b).__name__, dtype=str(b.dtype), shape=b.shape))
+                        except Exception as e:
+                            F.check("C19", f"{nm}-roundtrip/{mname}/{tag}", False, f"{type(e).__name__}: {str(e)[:150]}")
     # ---- the array form of a vector object
     e = AR.one(system, rng)
     o = AR.obj_of(system, mom, e)
